@@ -5,7 +5,7 @@ import gen_harness
 
 HEADER_COMMON = ("From Coq Require Import String ZArith.\n"
                  "From QV Require Import Rt.Prelude Rt.Show Rt.Amount Rt.Quantity Macro.Defs Gen.Prefixes Gen.Catalogue "
-                 "Gen.Kernels Gen.KernelsFmt Macro.Inst Proofs.Eval.\n")
+                 "Gen.Kernels Gen.KernelsFmt Macro.Inst Macro.TempInst Proofs.Eval.\n")
 
 
 class F64Backend:
@@ -13,7 +13,7 @@ class F64Backend:
     cfg = "f64"
     header = (HEADER_COMMON + "From Flocq Require Import IEEE754.Bits.\nFrom QV Require Import Amount.F64.\n"
               "Definition AM := F64.\nDefinition sa : A AM -> string := show_f64.\nDefinition pa (z : Z) : A AM := b64_of_bits z.\n")
-    targets = ["Amount/F64.vo", "Proofs/Eval.vo", "Gen/Catalogue.vo", "Gen/KernelsFmt.vo"]
+    targets = ["Amount/F64.vo", "Proofs/Eval.vo", "Gen/Catalogue.vo", "Gen/KernelsFmt.vo", "Macro/TempInst.vo"]
 
     @staticmethod
     def amt(tok):
@@ -25,7 +25,7 @@ class DecBackend:
     cfg = "dec"
     header = (HEADER_COMMON + "From QV Require Import Amount.DecModel Amount.Dec.\n"
               "Definition AM := DEC.\nDefinition sa : A AM -> string := show_dec.\nDefinition pa (c n : Z) : A AM := mkdec c n.\n")
-    targets = ["Amount/Dec.vo", "Proofs/Eval.vo", "Gen/Catalogue.vo", "Gen/KernelsFmt.vo"]
+    targets = ["Amount/Dec.vo", "Proofs/Eval.vo", "Gen/Catalogue.vo", "Gen/KernelsFmt.vo", "Macro/TempInst.vo"]
 
     @staticmethod
     def amt(tok):
@@ -69,6 +69,10 @@ class ModelExpr:
             return self.derived(p[1:])
         if op == "rate":
             return self.rate(p[1:])
+        if op == "tconv":
+            I = inst("cat_Temperature")
+            return (f"show_res (show_opt (show_q sa {I})) (ConversionTable_convert {I} (temp_rows AM) "
+                    f"{self.q('cat_Temperature', p[1], p[2])} {int(p[3])}%nat)")
         T = p[1]
         I = inst(T)
         a = p[2:]
